@@ -121,9 +121,11 @@ def ground_truth(args, truth_file):
     effect = OrderedDict()
     # filter(lambda arg: arg != args.truth, arg2parse_emit_type.keys()):
     for fun_name, (parse_func, emit_func, type_wanted) in arg2parse_emit_type.items():
+        filenames = getattr(args, pluralise(fun_name))
+        if filenames is None:
+            continue  # this kind was not given: nothing to conform (two kinds are enough)
         search = list(strip_split(_get_name_from_namespace(args, fun_name), "."))
 
-        filenames = getattr(args, pluralise(fun_name))
         assert isinstance(
             filenames, (list, tuple)
         ), "Expected Union[list, tuple] got {!r}".format(type(filenames).__name__)
